@@ -42,8 +42,9 @@
 //   R7a stubs (verified elsewhere with the SAME contract text, hashes checked): Tour::new (tour_ctor),
 //            Schedule::find_best_start_depot_for_spawning, Schedule::find_best_end_depot_for_despawning (depot_choice; WITH
 //            their preconditions -- tools/stub_sync.py reports no difference; the vocabulary of these contracts is COPIED
-//            from env/depot_choice_shim.vs into this file, see the block after the includes for why it is not in
-//            env/spawn_vehicle_shim.vs),
+//            from env/depot_choice_shim.vs into the last block of env/spawn_vehicle_shim.vs, see there why that file cannot be
+//            included; slices dummy_ops / sched_ctor, which stub spawn_vehicle_for_path with this contract, and add_path use
+//            the same definitions),
 //            Schedule::update_train_formation (train_formation_update; R12: `moved_nodes` retyped to SeqIter<NodeIdx>),
 //            Schedule::update_depot_usage (depot_usage), Schedule::update_transitions_and_violation_fast (sched_guard);
 //            env/time_ops.vs, env/model_fns.vs, env/dist_ops.vs included trusted (slices time / network / tour_ctor)
@@ -85,7 +86,9 @@
 //         network's depot table (how Network::new fills the list; not proved in slice network_new);
 //     and, only if the path does not start with a depot (a start depot is chosen), for the schedule's own usage table:
 //       - magnitude: usage_counts_small -- for the depots of the start depot nodes the count of the type and the total over
-//         the network's types fit u32 (vehicle ids are 16 bit; follows from usage_exact + sv_ids_ok but is not derived here);
+//         the network's types fit u32 (vehicle ids are 16 bit; follows from usage_exact + sv_ids_ok + pairwise distinct vehicle
+//         types: lemma_usage_counts_small, env/spawn_vehicle_shim.vs -- the callers verified in slices dummy_ops / sched_ctor
+//         derive it that way; kept as a precondition here because the contract of the callee is stated for ANY table);
 //       - C06 / C17: some_depot_has_room -- SOME start depot node of the network can spawn the type w.r.t. the usage table;
 //         otherwise `expect("There should be at least the overflow depot available.")` panics.  It cannot be derived from
 //         schedule validity: the overflow depot's total capacity is a computed number (slices/network_new.vs, C17, D5).
@@ -99,7 +102,10 @@
 //     contracts but is not stated); the error messages;
 //   * WHICH depot is put at the ends if the path STARTS with a depot (the stub of can_depot_spawn_vehicle has no contract:
 //     either the given depot is kept and a missing end depot is the nearest one, or the overflow depot's nodes are used);
-//     that the callers establish some_depot_has_room (C17 is not connected to it);
+//     that the callers establish some_depot_has_room: spawn_vehicle_to_replace_dummy_tour (slices/dummy_ops.vs) hands it up as
+//     its own precondition, from_tours (slices/sched_ctor.vs) derives it for every intermediate schedule from the stated
+//     instance-level fact some_depot_hosts_all (a depot listing the types without limit whose total capacity is at least the
+//     number of given tours); C17 (the computed capacity of the overflow depot) is not connected to either;
 //   * that the result satisfies sv_ok again (invariant preservation) beyond what the postconditions state (usage_exact,
 //     sorted / matching listings, transitions consistent with the new tours); that the callers establish the preconditions;
 //   * D12 (fixed in /repo, `fix:` 56e2050): if the path starts with a depot that cannot spawn the vehicle, the unfixed
@@ -160,268 +166,6 @@ impl Clone for TransitionCycle {
 //@include env/schedule_shim.vs
 //@include env/sched_guard_shim.vs
 //@include env/spawn_vehicle_shim.vs
-
-// =====================================================================================================
-// the choice of a depot: vocabulary of the contracts of Schedule::find_best_start_depot_for_spawning /
-// find_best_end_depot_for_despawning.  TEXT COPIED from env/depot_choice_shim.vs (slice depot_choice verifies the two
-// functions against it), which cannot be included here: it declares UsageMap, sp_spawned, sp_despawned,
-// usage_same_except, Display of VehicleTypeIdx again (env/spawn_vehicle_shim.vs) and expects env/admission_shim.vs' im_set.
-// This block BELONGS INTO env/spawn_vehicle_shim.vs (the stubs of spawn_vehicle_for_path in other slices need it); it is
-// kept here because env/add_path_shim.vs, which slices/add_path.vs includes next to env/spawn_vehicle_shim.vs, holds a copy
-// of its first part (Depot::sp_capacity_for .. spawned_total) already.  No assumption: open spec functions and lemmas.
-// =====================================================================================================
-// ---- depot admission vocabulary (C02); in env/depot_choice_shim.vs copied from slices/admission.vs ----------------
-impl Depot {
-    /// C02: the number of vehicles of a type that may start at a depot: 0 if the type is not listed,
-    /// the depot's total capacity if it is listed without a limit, the smaller of both otherwise
-    pub open spec fn sp_capacity_for(&self, vt: VehicleTypeIdx) -> VehicleCount {
-        if !self.allowed_types@.contains_key(vt) { 0 }
-        else {
-            match self.allowed_types@[vt] {
-                Some(c) => if c <= self.total_capacity { c } else { self.total_capacity },
-                None => self.total_capacity,
-            }
-        }
-    }
-}
-impl Network {
-    pub open spec fn has_depot(&self, d: DepotIdx) -> bool { self.depots@.contains_key(d) }
-    pub open spec fn sp_depot(&self, d: DepotIdx) -> Depot { self.depots@[d].0 }
-    /// the depot a start / end depot node belongs to (the free function sp_depot_idx_of(net, n) of
-    /// env/spawn_vehicle_shim.vs has the same body)
-    pub open spec fn sp_depot_idx_of(&self, n: NodeIdx) -> DepotIdx {
-        match self.sp_node(n) {
-            Node::StartDepot((_, d)) => d.depot_idx,
-            Node::EndDepot((_, d)) => d.depot_idx,
-            _ => arbitrary(),
-        }
-    }
-}
-/// C02: "the number of vehicles [of a type] starting there"
-pub open spec fn spawned_of_type(du: UsageMap, d: DepotIdx, vt: VehicleTypeIdx) -> nat {
-    if du.contains_key((d, vt)) { du[(d, vt)].0@.len() } else { 0 }
-}
-pub open spec fn spawned_counts(du: UsageMap, d: DepotIdx, types: Seq<VehicleTypeIdx>) -> Seq<int> {
-    types.map_values(|vt: VehicleTypeIdx| spawned_of_type(du, d, vt) as int)
-}
-/// C02: "the number of vehicles starting there": the total over the given vehicle types
-pub open spec fn spawned_total(du: UsageMap, d: DepotIdx, types: Seq<VehicleTypeIdx>) -> int {
-    isum(spawned_counts(du, d, types))
-}
-// ---- the choice of a depot (env/depot_choice_shim.vs) -------------------------------------------------------------
-/// "at most as far as"
-pub open spec fn dist_le(a: Distance, b: Distance) -> bool { denc(a) <= denc(b) }
-impl Network {
-    /// the sort key of Network::start_depots_sorted_by_distance_to: the dead-head distance FROM the node d (its start
-    /// location; for a depot node: the depot's location) TO the given location
-    pub open spec fn dist_to(&self, d: NodeIdx, location: Location) -> Distance {
-        self.locations.sp_distance(self.sp_node(d).sp_start_location(), location)
-    }
-    /// the sort key of Network::end_depots_sorted_by_distance_from: the dead-head distance FROM the given location TO
-    /// the node d (the code reads its START location; for a depot node start and end location are the depot's location)
-    pub open spec fn dist_from(&self, location: Location, d: NodeIdx) -> Distance {
-        self.locations.sp_distance(location, self.sp_node(d).sp_start_location())
-    }
-    /// instance validity (A-index: how Network::new fills the list): the start depot node list holds StartDepot nodes
-    /// of the network whose depot is a depot of the network's depot table
-    pub open spec fn start_depots_ok(&self) -> bool {
-        forall|i: int| 0 <= i < self.start_depot_nodes@.len() ==> self.has(#[trigger] self.start_depot_nodes@[i])
-            && self.sp_node(self.start_depot_nodes@[i]) is StartDepot
-            && self.has_depot(self.sp_depot_idx_of(self.start_depot_nodes@[i]))
-    }
-}
-/// x occurs in `list` before some occurrence of y
-pub open spec fn listed_before(list: Seq<NodeIdx>, x: NodeIdx, y: NodeIdx) -> bool {
-    exists|a: int, b: int| #![trigger list[a], list[b]] 0 <= a < b < list.len() && list[a] == x && list[b] == y
-}
-impl Network {
-    /// the nearest end depot node (ties: the one listed first)
-    pub open spec fn nearest_end_depot(&self, r: NodeIdx, location: Location) -> bool {
-        &&& self.end_depot_nodes@.contains(r)
-        &&& forall|d: NodeIdx| #[trigger] self.end_depot_nodes@.contains(d) ==> dist_le(self.dist_from(location, r), self.dist_from(location, d))
-        &&& forall|d: NodeIdx| #[trigger] self.end_depot_nodes@.contains(d) && d != r && self.dist_from(location, d) == self.dist_from(location, r)
-                ==> listed_before(self.end_depot_nodes@, r, d)
-    }
-}
-impl Schedule {
-    /// C02 "no more vehicles start at a depot than its total and per-type capacity": the depot of the start depot node n
-    /// lists the type and has room for one more vehicle of it, per type and in total, w.r.t. the usage table du.  This is
-    /// (verbatim) the value Schedule::can_depot_spawn_vehicle_custom_usage is verified to return (slices/admission.vs)
-    pub open spec fn sp_can_spawn(&self, n: NodeIdx, vehicle_type: VehicleTypeIdx, du: UsageMap) -> bool {
-        let d = self.network.sp_depot_idx_of(n);
-        &&& self.network.sp_depot(d).sp_capacity_for(vehicle_type) > 0
-        &&& spawned_of_type(du, d, vehicle_type) < self.network.sp_depot(d).sp_capacity_for(vehicle_type)
-        &&& spawned_total(du, d, self.network.vehicle_types.ids_sorted@) < self.network.sp_depot(d).total_capacity
-    }
-    /// magnitude (`as VehicleCount` of a set size / the u32 sum over the types): the counts of the table fit u32 for the
-    /// depots of the network's start depot nodes (vehicle ids are 16 bit: a set has at most 2^17 members)
-    pub open spec fn usage_counts_small(&self, vehicle_type: VehicleTypeIdx, du: UsageMap) -> bool {
-        forall|i: int| 0 <= i < self.network.start_depot_nodes@.len() ==> {
-            let d = self.network.sp_depot_idx_of(#[trigger] self.network.start_depot_nodes@[i]);
-            &&& spawned_of_type(du, d, vehicle_type) <= u32::MAX
-            &&& spawned_total(du, d, self.network.vehicle_types.ids_sorted@) <= u32::MAX
-        }
-    }
-    /// C06: some start depot node of the network can spawn a vehicle of the type w.r.t. the table
-    pub open spec fn some_depot_has_room(&self, vehicle_type: VehicleTypeIdx, du: UsageMap) -> bool {
-        exists|i: int| 0 <= i < self.network.start_depot_nodes@.len() && self.sp_can_spawn(#[trigger] self.network.start_depot_nodes@[i], vehicle_type, du)
-    }
-    /// the nearest start depot node with room for one more vehicle of the type w.r.t. the table (ties: the one listed first)
-    pub open spec fn best_start_depot(&self, r: NodeIdx, vehicle_type: VehicleTypeIdx, location: Location, du: UsageMap) -> bool {
-        let sdn = self.network.start_depot_nodes@;
-        &&& sdn.contains(r)
-        &&& self.sp_can_spawn(r, vehicle_type, du)
-        &&& forall|d: NodeIdx| sdn.contains(d) && #[trigger] self.sp_can_spawn(d, vehicle_type, du)
-                ==> dist_le(self.network.dist_to(r, location), self.network.dist_to(d, location))
-        &&& forall|d: NodeIdx| sdn.contains(d) && #[trigger] self.sp_can_spawn(d, vehicle_type, du) && d != r
-                && self.network.dist_to(d, location) == self.network.dist_to(r, location) ==> listed_before(sdn, r, d)
-    }
-}
-// ---- sums: a count is at most the total (in env/depot_choice_shim.vs copied from slices/admission.vs) ---------------
-pub proof fn lemma_isum_bounds_lo(s: Seq<int>)
-    requires forall|i: int| 0 <= i < s.len() ==> 0 <= #[trigger] s[i],
-    ensures 0 <= isum(s),
-    decreases s.len(),
-{
-    if s.len() > 0 {
-        let t = s.drop_last();
-        assert forall|i: int| 0 <= i < t.len() implies 0 <= #[trigger] t[i] by { assert(t[i] == s[i]); }
-        lemma_isum_bounds_lo(t);
-    }
-}
-pub proof fn lemma_isum_nonneg_le(s: Seq<int>, k: int)
-    requires forall|i: int| 0 <= i < s.len() ==> 0 <= #[trigger] s[i], 0 <= k < s.len(),
-    ensures 0 <= s[k] <= isum(s),
-    decreases s.len(),
-{
-    let t = s.drop_last();
-    assert forall|i: int| 0 <= i < t.len() implies 0 <= #[trigger] t[i] by { assert(t[i] == s[i]); }
-    lemma_isum_bounds_lo(t);
-    if k < t.len() {
-        lemma_isum_nonneg_le(t, k);
-        assert(t[k] == s[k]);
-    }
-}
-// ---- C06: how a caller meets some_depot_has_room -- "at least the overflow depot" (text of slices/depot_choice.vs) ------
-/// A start depot node n of the network whose depot lists the type WITHOUT a per-type limit (the overflow depot lists every type
-/// of the network so: slices/network_new.vs, C17.overflow_depot.no_per_type_limit_for_any_type) can spawn a vehicle of the type
-/// as long as fewer vehicles start there in total than its total capacity -- then `expect` cannot panic.
-pub proof fn lemma_depot_without_type_limit_suffices(s: &Schedule, n: NodeIdx, vehicle_type: VehicleTypeIdx, du: UsageMap)
-    requires
-        s.network.start_depot_nodes@.contains(n),
-        // the type is one of the network's types (the total is the sum over them)
-        s.network.vehicle_types.ids_sorted@.contains(vehicle_type),
-        ({
-            let d = s.network.sp_depot_idx_of(n);
-            let dep = s.network.sp_depot(d);
-            &&& dep.allowed_types@.contains_key(vehicle_type) && dep.allowed_types@[vehicle_type] is None
-            &&& spawned_total(du, d, s.network.vehicle_types.ids_sorted@) < dep.total_capacity
-        }),
-    ensures
-        s.sp_can_spawn(n, vehicle_type, du),
-        s.some_depot_has_room(vehicle_type, du), // @obl C06.spawn_vehicle.a_depot_without_type_limit_and_room_in_total_suffices
-{
-    let d = s.network.sp_depot_idx_of(n);
-    let types = s.network.vehicle_types.ids_sorted@;
-    let c = spawned_counts(du, d, types);
-    let k = choose|k: int| 0 <= k < types.len() && types[k] == vehicle_type;
-    lemma_isum_nonneg_le(c, k);
-    assert(c[k] == spawned_of_type(du, d, vehicle_type));
-    let sdn = s.network.start_depot_nodes@;
-    let i = choose|i: int| 0 <= i < sdn.len() && sdn[i] == n;
-    assert(s.sp_can_spawn(sdn[i], vehicle_type, du));
-}
-// ---- C02: the depot limits still hold after the vehicle was booked at the chosen depot (text of slices/depot_choice.vs; the
-// parameter `can` with the copied postcondition of can_depot_spawn_vehicle_custom_usage is replaced by what sp_can_spawn
-// says itself, and the conclusion is named depot_limits_hold) ---------------------------------------------------------
-impl Schedule {
-    /// C02 "for every real depot the number of vehicles starting there stays within the depot's total capacity and within the
-    /// per-type capacity (types not listed for a depot never start there)", for the depot of the start depot node n and one
-    /// type, w.r.t. the usage table du
-    pub open spec fn depot_limits_hold(&self, n: NodeIdx, vehicle_type: VehicleTypeIdx, du: UsageMap) -> bool {
-        let d = self.network.sp_depot_idx_of(n);
-        let dep = self.network.sp_depot(d);
-        // "within the per-type capacity (types not listed for a depot never start there)"
-        &&& spawned_of_type(du, d, vehicle_type) <= dep.sp_capacity_for(vehicle_type)
-        &&& dep.allowed_types@.contains_key(vehicle_type)
-        &&& (dep.allowed_types@[vehicle_type] is Some ==> spawned_of_type(du, d, vehicle_type) <= dep.allowed_types@[vehicle_type].unwrap())
-        // "within the depot's total capacity"
-        &&& spawned_total(du, d, self.network.vehicle_types.ids_sorted@) <= dep.total_capacity
-    }
-}
-/// if b exceeds a by at most 1 at no more than one position and nowhere else, the sum grows by at most 1
-pub proof fn lemma_isum_one_more(a: Seq<int>, b: Seq<int>, k: int)
-    requires
-        a.len() == b.len(),
-        forall|i: int| 0 <= i < a.len() && i != k ==> #[trigger] b[i] <= a[i],
-        0 <= k < a.len() ==> b[k] <= a[k] + 1,
-    ensures
-        isum(b) <= isum(a) + (if 0 <= k < a.len() { 1int } else { 0int }),
-    decreases a.len(),
-{
-    if a.len() > 0 {
-        let n = a.len() - 1;
-        let a0 = a.drop_last();
-        let b0 = b.drop_last();
-        assert forall|i: int| 0 <= i < a0.len() && i != k implies #[trigger] b0[i] <= a0[i] by { assert(b[i] <= a[i]); }
-        lemma_isum_one_more(a0, b0, k);
-        if k != n { assert(b[n] <= a[n]); }
-    }
-}
-/// `n` = the start depot node find_best_start_depot_for_spawning(vt, _, du0) returned (it had room w.r.t. du0).  du1 = the table
-/// after update_depot_usage booked the new vehicle v: its postcondition usage_same_except, and v starts at (depot of n, vt)
-/// only.  Then, w.r.t. du1, the depot's per-type and total limits hold.
-pub proof fn lemma_spawn_keeps_depot_limits(s: &Schedule, n: NodeIdx, vehicle_type: VehicleTypeIdx, du0: UsageMap, du1: UsageMap, v: VehicleIdx)
-    requires
-        // find_best_start_depot_for_spawning
-        s.sp_can_spawn(n, vehicle_type, du0),
-        // update_depot_usage: nobody else moves; v starts at the chosen depot with its type and nowhere else
-        usage_same_except(du0, du1, v),
-        forall|d: DepotIdx, vt: VehicleTypeIdx| (#[trigger] sp_spawned(du1, d, vt)).contains(v) <==> (d == s.network.sp_depot_idx_of(n) && vt == vehicle_type),
-        // A-types: the network lists every vehicle type once
-        s.network.vehicle_types.ids_sorted@.no_duplicates(),
-    ensures
-        s.depot_limits_hold(n, vehicle_type, du1), // @obl C02.spawn_vehicle.depot_limits_hold_after_the_spawn
-{
-    let d = s.network.sp_depot_idx_of(n);
-    let types = s.network.vehicle_types.ids_sorted@;
-    let a = spawned_counts(du0, d, types);
-    let b = spawned_counts(du1, d, types);
-    // per type: the set of the chosen (depot, type) gains v, the sets of the depot's other types gain nothing
-    assert forall|vt: VehicleTypeIdx| spawned_of_type(du1, d, vt) <= #[trigger] spawned_of_type(du0, d, vt) + (if vt == vehicle_type { 1int } else { 0int }) by {
-        let s0 = sp_spawned(du0, d, vt);
-        let s1 = sp_spawned(du1, d, vt);
-        assert(spawned_of_type(du0, d, vt) == s0.len() && spawned_of_type(du1, d, vt) == s1.len());
-        if vt == vehicle_type {
-            assert forall|u: VehicleIdx| s1.contains(u) implies #[trigger] s0.insert(v).contains(u) by {
-                if u != v { assert(sp_spawned(du1, d, vt).contains(u) <==> sp_spawned(du0, d, vt).contains(u)); }
-            }
-            assert(s1.subset_of(s0.insert(v)));
-            vstd::set_lib::lemma_len_subset(s1, s0.insert(v));
-        } else {
-            assert forall|u: VehicleIdx| s1.contains(u) implies #[trigger] s0.contains(u) by {
-                assert(sp_spawned(du1, d, vt).contains(v) <==> (d == s.network.sp_depot_idx_of(n) && vt == vehicle_type));
-                assert(u != v);
-                assert(sp_spawned(du1, d, vt).contains(u) <==> sp_spawned(du0, d, vt).contains(u));
-            }
-            assert(s1.subset_of(s0));
-            vstd::set_lib::lemma_len_subset(s1, s0);
-        }
-    }
-    // in total: the type is listed at most once
-    let k = if types.contains(vehicle_type) { choose|k: int| 0 <= k < types.len() && types[k] == vehicle_type } else { -1int };
-    assert forall|i: int| 0 <= i < a.len() && i != k implies #[trigger] b[i] <= a[i] by {
-        assert(types[i] != vehicle_type) by {
-            if types[i] == vehicle_type { assert(types.contains(vehicle_type)); assert(types[k] == vehicle_type && i != k); }
-        }
-        assert(spawned_of_type(du1, d, types[i]) <= spawned_of_type(du0, d, types[i]) + 0);
-    }
-    if 0 <= k < a.len() {
-        assert(spawned_of_type(du1, d, types[k]) <= spawned_of_type(du0, d, types[k]) + 1);
-    }
-    lemma_isum_one_more(a, b, k);
-    assert(spawned_of_type(du1, d, vehicle_type) <= spawned_of_type(du0, d, vehicle_type) + 1);
-}
 
 // ---- model: the type guard (verified here; contract text as in slices/sched_guard.vs) -------------------
 //@item model/src/network/nodes.rs ServiceTrip::vehicle_type
